@@ -38,7 +38,12 @@ func main() {
 	replay := flag.String("replay", "", "findings file: re-evaluate and print the verdicts of the obligations named in it")
 	list := flag.Bool("list", false, "list properties")
 	selftest := flag.Bool("selftest", false, "run primitive fixtures only")
+	manifest := flag.Bool("manifest", false, "print MANIFEST.json for the registered properties")
 	flag.Parse()
+	if *manifest {
+		printManifest()
+		return
+	}
 	if *list {
 		var ids []string
 		for id := range registry {
